@@ -201,9 +201,23 @@ def _library_instance(rng, max_jobs, max_machines):
 
 
 def build(inst, name="verif"):
-    """Builds the real JobShopInstance from a generated description."""
+    """Builds the real JobShopInstance from a generated description.  For a share of the
+    instances (deterministic in the content) the instance is assembled by hand from Operation
+    objects that already carry job/position/id attributes of another, discarded instance with a
+    different job order - the constructor has to re-number them."""
     from job_shop_lib import JobShopInstance
 
+    nj = len(inst["durations"])
+    if nj >= 2 and (sum(map(len, inst["durations"])) * 7 + nj + int(sum(map(sum, inst["durations"])))) % 6 == 0:
+        rot = [(j + 1) % nj for j in range(nj)]          # other job order
+        tmp = JobShopInstance.from_matrices(
+            [list(inst["durations"][j]) for j in rot],
+            [[list(m) for m in inst["machines"][j]] for j in rot], name="discarded")
+        jobs = [None] * nj
+        for pos, j in enumerate(rot):
+            jobs[j] = tmp.jobs[pos]
+        del tmp
+        return JobShopInstance(jobs, name=name)
     return JobShopInstance.from_matrices(
         [list(j) for j in inst["durations"]],
         [[list(m) for m in j] for j in inst["machines"]],
